@@ -75,7 +75,10 @@ def run(ck):
     bins = ck.build_all()
     if bins is None:
         return
-    ck.cov["rule"] = ("(a) segment layouts (2-7 batches per segment, index interval in {100,3,2,7,1}, cache on/off, restart) read at the first "
+    ck.cov["rule"] = ("(0) holes: 3-5 segments, the index object of a (mostly middle) segment deleted/corrupted or a segment object deleted, restart at a stale "
+                      "store offset (orphan rule of RestoreFromS3), reads at every segment/batch boundary in, before and after the hole, tail appended after the "
+                      "restart, second loss round; every slice returned by Read re-compared with a private copy after every later op, two concurrent readers (read2); "
+                      "(a) segment layouts (2-7 batches per segment, index interval in {100,3,2,7,1}, cache on/off, restart) read at the first "
                       "and last offset of every batch with byte limits around every batch length and every distance from the segment start; "
                       "(b) the shared append/flush/gate/restart/read histories of C03; non-trivial = a read returned data for an offset that is "
                       "not the first offset of its segment; distinct = distinct op files; broker stream (handleProduce/handleFetch/brestart, acks in {-1,1,0}, flush-on-ack on/off): "
@@ -84,6 +87,7 @@ def run(ck):
     base.corpus(ck, bins, "C04")
     ok = base.run_streams(ck, bins, "C04", DRIVER, [
         ("layouts", "st", layouts(ck, 24 if ck.quick() else 200)),
+        ("holes", "st", base.holes_ops(ck, 10 if ck.quick() else 150)),
         ("histories", "st", base.storage_ops(ck, ncases, nops)),
         ("broker", "br", base.broker_ops(ck, 6 if ck.quick() else 60, 60)),
     ])
